@@ -467,11 +467,15 @@ async fn scenario(plan: Plan) {
     let peers = [peer_b, peer_a];
     let received: [Rc<RefCell<Vec<Item>>>; 2] = [Rc::new(RefCell::new(Vec::new())), Rc::new(RefCell::new(Vec::new()))];
     let mut joins = Vec::new();
+    // messages handed to each endpoint's handle so far
+    let enqueued: [Rc<std::cell::Cell<usize>>; 2] = [Rc::new(std::cell::Cell::new(0)), Rc::new(std::cell::Cell::new(0))];
     for (ep, stream) in streams.into_iter().enumerate() {
         // endpoint `ep` receives direction 1-ep
         let dir = 1 - ep;
         let variant = if dir == cd { plan.variant } else { 0 };
         let rec = received[dir].clone();
+        let enq = enqueued[ep].clone();
+        let (_, own_bounds) = frames(&plan.msgs[ep]);
         joins.push(exec::spawn(&format!("ep{ep}"), async move {
             let mut s = wrap(stream, variant);
             loop {
@@ -488,6 +492,17 @@ async fn scenario(plan: Plan) {
                     None => {
                         exec::log(&format!("ep{ep} got end"));
                         rec.borrow_mut().push(Item::End);
+                        // a clean end tells the user that the connection is finished: every message
+                        // this endpoint accepted for sending before that moment must be on the wire
+                        // whole (the user drops the stream now; a frame cut short here is a
+                        // truncated message that no chunking justifies)
+                        let on_wire = net::tcp_captured(conn, ep).len();
+                        let want = own_bounds[enq.get()];
+                        if on_wire != want {
+                            exec::violate("C17.truncated-at-clean-end", "", format!("endpoint {ep}: its stream ended cleanly while {} message(s) had been accepted for sending ({} bytes framed) but only {} bytes are on the wire", enq.get(), want, on_wire));
+                        } else if want > 0 {
+                            exec::count("probe.clean_end_with_own_traffic_flushed");
+                        }
                         break;
                     }
                 }
@@ -503,6 +518,7 @@ async fn scenario(plan: Plan) {
         let gaps = plan.gaps[ep].clone();
         let peer = peers[ep];
         let drop_h = plan.drop_handle[ep];
+        let enq = enqueued[ep].clone();
         exec::spawn(&format!("send{ep}"), async move {
             for (m, g) in msgs.iter().zip(gaps.iter()) {
                 for _ in 0..*g {
@@ -511,6 +527,7 @@ async fn scenario(plan: Plan) {
                 if let Err(e) = h.send(SerialMessage::new(m.bytes(), peer)) {
                     exec::violate("C17.harness", "", format!("handle refused message: {e}"));
                 }
+                enq.set(enq.get() + 1);
             }
             if !drop_h {
                 std::future::pending::<()>().await;
